@@ -244,6 +244,8 @@ auto case_c(int f, T x, T y, bool run_mode) -> std::string
 {
     Case k{k_names[f], sizeof(T) == 4 ? "c32" : "c64", 2, bits(x), bits(y), 0};
     vf::Flight<Case> fl(k_bounds[f], k);
+    // non-finite components are cases for abs (hypot rules) and arg (atan2 table) only: Annex G is not claimed
+    if (f != F_ABS && f != F_ARG && (nan_b(x) || nan_b(y) || inf_b(x) || inf_b(y))) { return ""; }
     if (run_mode && excluded_c<T>(f, x, y)) { return ""; }
     auto const e = etl_c<T>(f, x, y);
     auto const r = ref_c<T>(f, x, y);
@@ -355,7 +357,7 @@ void run_complex(vf::Ctx& c, vf::Rng& rng)
                   // small in BOTH parts, so the relative error of sinh/sin of the small component is fully visible
             int const kk = static_cast<int>(rng.range(-5, 5));
             x            = static_cast<T>(static_cast<double>(kk) * 1.5707963267948966);
-            x            = from_bits<T>(static_cast<typename BitsOf<T>::type>(bits(x) + static_cast<typename BitsOf<T>::type>(rng.range(-3, 3))));
+            if (kk != 0) { x = from_bits<T>(static_cast<typename BitsOf<T>::type>(bits(x) + static_cast<typename BitsOf<T>::type>(rng.range(-3, 3)))); }
             int const lo = sizeof(T) == 4 ? -16 : -45;
             y            = static_cast<T>(::ldexp(1.0 + static_cast<double>(rng.next() >> 12) / 4503599627370496.0, static_cast<int>(rng.range(lo, 0))));
             if (rng.below(2) != 0) { y = -y; }
@@ -381,6 +383,9 @@ void run_complex(vf::Ctx& c, vf::Rng& rng)
         }
         }
         all(x, y);
+        if ((i & 0x3FFF) == 0x234) {
+            vf::sample("complex.sin", [&] { return std::string("all complex functions on ") + (sizeof(T) == 4 ? "c32 (" : "c64 (") + show_arg(x) + ", " + show_arg(y) + ")"; });
+        }
     }
     vf::nontrivial_count(nt * F_COUNT);
     auto& cl = vf::stats().classes[std::string("complex.") + BitsOf<T>::name + ".point on an axis, in a negative half-plane or within 2^-10 of an axis"];
